@@ -324,6 +324,28 @@ def jsonParse (text : Str) : Option JV :=
 /-  The argument of JSON.stringify, as a tree.  `tojson r` is an object whose `toJSON` method returns
     `r`; `back k` is a reference to the k-th enclosing array/object (k = 0: the nearest), the only way
     a tree can be cyclic. -/
+/-- a primitive a method of a wrapper object returns -/
+inductive Prim where
+  | undef
+  | null
+  | bool (b : Bool)
+  | num (x : FV)
+  | str (s : Str)
+deriving DecidableEq
+
+/-- `valueOf` / `toString` of a wrapper object: the one inherited from the prototype, an own
+    property that is not callable, or an own function returning a primitive -/
+inductive Meth where
+  | inherited
+  | notCallable
+  | ret (p : Prim)
+deriving DecidableEq
+
+/-- number <-> string conversions of primitives (C05 / C06 territory, shared by both sides) -/
+structure Conv where
+  numStr : FV → Str
+  strNum : Str → FV
+
 mutual
 inductive SV where
   | undef
@@ -339,6 +361,12 @@ inductive SV where
   | obj (m : SMs)
   | tojson (r : SV)
   | back (k : Nat)
+  /-- `new Number(x)` with scripted `valueOf` / `toString` -/
+  | wrapNum (x : FV) (vo ts : Meth)
+  /-- `new String(s)` with scripted `valueOf` / `toString` -/
+  | wrapStr (s : Str) (vo ts : Meth)
+  /-- a value whose conversion throws TypeError -/
+  | raise
 inductive SVs where
   | nil
   | cons (v : SV) (t : SVs)
@@ -410,11 +438,51 @@ structure MCtx where
   repl : Option (Str → SV → SV)
   /-- ctx.propertyList (nil = absent) -/
   plist : Option (List Str)
+  cv : Conv
 
-def unbox : SV → SV
+/-- what calling the method gives (`dflt`: the result of the inherited one); `none` = not callable -/
+def Meth.call (dflt : Prim) : Meth → Option Prim
+  | .inherited => some dflt
+  | .notCallable => none
+  | .ret p => some p
+
+/-- object.go DefaultValue (l.70): `methodSequence` is valueOf, toString — reversed for the string
+    hint; the first callable method's (primitive) result is returned, else TypeError (`none`) -/
+def defaultValue (hintString : Bool) (vo ts : Option Prim) : Option Prim :=
+  let methodSequence := if hintString then [ts, vo] else [vo, ts]
+  methodSequence.findSome? id
+
+/-- Value.float64() of a primitive (value_number.go) -/
+def primFloat (cv : Conv) : Prim → FV
+  | .undef => .nan
+  | .null => .fin false 0 0
+  | .bool b => if b then .fin false 1 0 else .fin false 0 0
+  | .num x => x
+  | .str s => cv.strNum s
+
+/-- Value.string() of a primitive (value_string.go) -/
+def primString (cv : Conv) : Prim → Str
+  | .undef => [117, 110, 100, 101, 102, 105, 110, 101, 100]
+  | .null => [110, 117, 108, 108]
+  | .bool b => if b then [116, 114, 117, 101] else [102, 97, 108, 115, 101]
+  | .num x => cv.numStr x
+  | .str s => s
+
+/-- the wrapper arms of builtinJSONStringifyWalk and of the `space` handling: Boolean -> the held
+    value; String -> `value.string()` (DefaultValue with the string hint); Number ->
+    `value.numberValue()` (DefaultValue with the number hint) -/
+def unbox (cv : Conv) : SV → SV
   | .boxNum x => .num x
   | .boxStr s => .str s
   | .boxBool b => .bool b
+  | .wrapNum x vo ts =>
+    match defaultValue false (vo.call (.num x)) (ts.call (.str (cv.numStr x))) with
+    | some p => .num (primFloat cv p)
+    | none => .raise
+  | .wrapStr s vo ts =>
+    match defaultValue true (vo.call (.str s)) (ts.call (.str s)) with
+    | some p => .str (primString cv p)
+    | none => .raise
   | v => v
 
 def decimalNat (n : Nat) : Str := C06.Spec.decimalStr n
@@ -433,11 +501,12 @@ def walk (C : MCtx) : Nat → Nat → Str → SV → WR GV
     let v2 := match C.repl with        -- l.211
       | some f => f key v1
       | none => v1
-    match unbox v2 with                -- l.215-224
+    match unbox C.cv v2 with           -- l.215-224
     | .bool b => .val (.bool b)
     | .str s => .val (.str (goStr s))
     | .num x => .val (walkNum x)
     | .null => .val .nil
+    | .raise => .throw
     | .back k => if k < depth then .throw else .val (.map .nil)          -- l.246-250
     | .arr l =>
       match walkArr C fuel (depth + 1) 0 l with
@@ -708,6 +777,19 @@ inductive Space where
   | str (s : Str)
   | num (x : FV)
   | other
+  /-- converting the argument threw TypeError -/
+  | typeError
+
+/-- the `space` argument: a String / Number object is replaced by `string()` / `numberValue()` -/
+def spaceOf (cv : Conv) (arg : Option SV) : Space :=
+  match arg with
+  | none => .absent
+  | some a =>
+    match unbox cv a with
+    | .str s => .str s
+    | .num x => .num x
+    | .raise => .typeError
+    | _ => .other
 
 /-- number().int64 of a float64-kinded value (value_number.go:149) clamped as at l.166-172 -/
 def gapCount (x : FV) : Nat :=
@@ -731,14 +813,15 @@ inductive Out where
   | oof
 deriving DecidableEq
 
-def mctxOf (numStr : FV → Str) : Replacer → MCtx
-  | .none => { repl := none, plist := none }
-  | .list items => { repl := none, plist := some (propertyList numStr items) }
-  | .fn f => { repl := some f, plist := none }
+def mctxOf (cv : Conv) : Replacer → MCtx
+  | .none => { repl := none, plist := none, cv := cv }
+  | .list items => { repl := none, plist := some (propertyList cv.numStr items), cv := cv }
+  | .fn f => { repl := some f, plist := none, cv := cv }
 
 /-- builtinJSONStringify (l.109) -/
-def jsonStringify (L : C06.Lib) (numStr : FV → Str) (fuel : Nat) (v : SV) (r : Replacer) (sp : Space) : Out :=
-  match walk (mctxOf numStr r) fuel 0 [] v with
+def jsonStringify (L : C06.Lib) (cv : Conv) (fuel : Nat) (v : SV) (r : Replacer) (sp : Space) : Out :=
+  if (match sp with | .typeError => true | _ => false) then .typeError else
+  match walk (mctxOf cv r) fuel 0 [] v with
   | .val g => .text (marshal L (gapOf sp) 0 (sortMaps g))
   | .absent => .undef
   | .throw => .typeError
